@@ -400,9 +400,11 @@ class C12(Spec):
     # UBSan's pointer-overflow check in C mode although no platform misbehaves on it: that one check is switched off (reported).
     harness_flags = ('-fno-sanitize=pointer-overflow',)
     technique = ('Lean 4 proofs over an executable model of the argument validation and mutation order of every fallible container / '
-                 'value operation (index arithmetic on BitVec 64); white-box differential check of the model against the real library; '
+                 'value operation (index arithmetic on BitVec 64); translator link: the check / mutation order profile of the 64 mirrored C functions '
+                 'and the declaration matrix are regenerated from the sources on every run and are what theorems are stated about; '
+                 'white-box differential check of the model against the real library; '
                  'independent reference + before/after dump oracle in C under ASan/UBSan, risky calls probed in a forked child')
-    level_text = ('Theorems over the executable model lean/Cello/Fail.lean (49, no sorry): C12_failure_atomic — for every store of objects (Array, List, '
+    level_text = ('Theorems over the executable model lean/Cello/Fail.lean (65, no sorry): C12_failure_atomic — for every store of objects (Array, List, '
                   'heap and stack Tuple, Table, Tree, heap/stack/static String, Range, Slice, Zip, plain Int/Plain values), every object and every '
                   'operation outside the territories of the known findings, an operation that raises leaves the observable state of every object '
                   'unchanged (C12_failure_atomic_exact: the very same store, unless the object is a slot-less Table or a Slice); per type '
@@ -415,7 +417,17 @@ class C12(Spec):
                   'NULL key, value, element, index; unimplemented class or member; non-heap Tuple/String for a reallocating operation; unsupported '
                   'resize; too few / wrong-typed print_to arguments; dealloc of a non-heap object; calls on NULL); C12_then_usable: after a failed '
                   'operation every further operation on every object behaves as on the original store; C12_invariant_*: the typing / slot invariants '
-                  'the theorems assume are preserved along every history. The model is tied to the C code by executing thousands of valid/invalid '
+                  'the theorems assume are preserved along every history. Containers whose elements are containers (Array/List of Array/List/Table): '
+                  'C12_failure_atomic_nest / C12_raises_exactly_nest / C12_invariant_nest, with the assign-clears / foreach / F15 findings reached through '
+                  'set and push as an explicit territory (Nest.kf) and C12_nest_set_refuted / C12_nest_push_refuted. Dispatcher: C12_null_call and '
+                  'C12_bad_magic_call are stated about engine C08\'s model of Type_Of (Cello.Dispatch.typeOfW); C12_unimplemented_class_error derives '
+                  'every ClassError-by-dispatch of the model from the declaration matrix generated from the Cello(T, Instance(...)) texts '
+                  '(C12_class_error_iff_undeclared: the converse on one object per kind). Source order (translate/g_fail.py -> CelloGen.Fail.profile): '
+                  'C12_source_profile (guards, throw sites, validating calls, element assigns and mutations of 64 functions equal the sequences the '
+                  'model was written against), C12_source_checks_precede_mutations (an abstract interpretation of the generated profile: in 49 functions '
+                  'no raising event is reachable after a mutation), C12_source_order_violations (the 15 others: the known findings and five benign '
+                  'cases), C12_atomic_where_source_ordered (if the C function an operation mirrors is ordered, the model operation is failure-atomic '
+                  'with no known-finding hypothesis). The model is further tied to the C code by executing thousands of valid/invalid '
                   'operation histories on both and comparing result, exception type and a white-box dump after every operation; an independent C '
                   'reference and a before/after dump oracle run on the real library under ASan/UBSan. Deviations the code really has are modelled '
                   'as they are, proved as *_refuted theorems on concrete witnesses and listed as known findings; defects repaired by a fix: commit '
@@ -432,13 +444,21 @@ class C12(Spec):
             'Range/Slice sweep (27 ranges: steps 0, ±1..±3, ±2^62, INT64_MAX, fields at the int64 limits; indices at both ends of [-len, len), '
             '±2^63 and around INT64_MAX/|step| and (INT64_MAX-start)/step; slices with step 0 / ±10^6; rem of Int/Plain/NULL on heap/stack/static '
             'Strings). Ranges of the histories take any int64 start/stop/step for which Range_Len does not overflow (step 0: ~15%). '
+            'Nested-container histories (family nest): container sources, every kind of bad index, refused sources pushed onto Lists of containers; '
+            'junk objects (freed-object / foreign magic number) receive every entry point and their bytes are compared before/after. '
             'Each op is run on the real library (first in a forked child when a failure is expected), result + white-box dump compared with the Lean '
             'model, public dump before/after compared, and compared with an independent C reference. non-trivial item = a (operation, resulting '
             'observation) pair whose result is an exception or ub; distinct = distinct text.')
-    trusted_base = ('lean/Cello/Fail.lean is a hand model of the C control flow (no translator for this engine): validated only by the correspondence',
+    trusted_base = ('lean/Cello/Fail.lean is a hand model of the C control flow: validated by the correspondence (testing) and pinned to the source text by '
+                    'the generated check/mutation profile (translate/g_fail.py: a text-level extractor, no C parser; what a callee does is known only '
+                    'for the 64 profiled functions and the listed primitives)',
                     'harness/h_fail.c + lean/Driver/Fail.lean (correspondence is testing); the C reference inside the harness is a third implementation',
                     'libc malloc/realloc/memmove/strstr/vsnprintf are modelled, not verified; allocation never fails')
     assumptions = ('default (checked) build; single thread; collector stopped so that harness-held objects stay alive',
+                   'element, key and value types of Array/List/Table/Tree objects are Int, String or a type without instances; containers of containers '
+                   'are the separate objects `Nest` (Array/List of Array/List/Table of Int): get/set/push/push_at/pop/pop_at/resize/len; a source that is '
+                   'not a container for set (valid index) or for push/push_at on an outer Array is known-finding territory (assign-clears, foreach-noniter, '
+                   'F15) and only in the corpus witnesses; mem/rem/concat/assign on nested containers and growing a List of containers are not modelled',
                    'container sizes < 2^63 (the theorems state it); generated sizes <= ~70 elements, ints of elements in int64',
                    'not generated (known findings, each with witness corpus/kf_c12_*.ops and a _refuted theorem): wrong-typed / NULL element pushed, '
                    'inserted or concatenated into an Array (F15); print_to failing after its first segment (F29); concat into a List from a source with '
@@ -489,6 +509,8 @@ class C12(Spec):
                 except ValueError: pass
             elif w[0] == 'rem' and len(w) == 3 and w[1] in strs and w[2][:1] in ('i', 'p') and res != 'bad-op':
                 acc['string_rem_non_string'] = acc.get('string_rem_non_string', 0) + 1
+            if ' | N' in o and res != 'new': acc['nested_ops'] = acc.get('nested_ops', 0) + 1
+            if ' | J ' in o and res != 'new': acc['bad_magic_ops'] = acc.get('bad_magic_ops', 0) + 1
             key = res if res.startswith('raised:') else res.split(':')[0]
             acc[key] = acc.get(key, 0) + 1
             if res.startswith('raised:'):
